@@ -18,6 +18,18 @@ PyPrelude; compiled into the native driver; validated against CPython by `harnes
   not there answers `unsupported` (never a guess), `AttributeError` only on a complete object.
 * TRUSTED primitive contracts: `device.get_nowait(name, default)` of the owning device
   (`EventManager.get_nowait`) is `data.get(name, default)` on the device's data dict.
+* Round 8, fourth leg (temperatures, statuses, outputs, lambda sensor, frame versions):
+  - `d[k] = v` (`setitem`) on a dict is a VALUE operation (the new dict is rebound to the name); the mutation seen
+    through other references to the same object (the caller's `data`) is not modelled — same stance as `|=`;
+  - `enumerate(seq)` is the list of `(i, item)` pairs of an already evaluated sequence (iterating a value raises nothing);
+  - TRUSTED `int(math.pow(2, i))` (`int_math_pow`): the C `pow` is exact on powers of two, so the value is `2 ^ i` for
+    `0 ≤ i ≤ 1023`, `0` for `i < 0` (a float in (0, 1) truncates to 0), OverflowError for `i > 1023`; any other
+    base is declined (`unsupported`);
+  - TRUSTED `a / b` on ints (`truediv`): CPython answers the float NEAREST to the exact quotient (correctly rounded,
+    `long_true_divide`); it is modelled as the exact rational `ratioV a b` (an `obj "float"` with `num` / `den`, the
+    denominator positive, NOT reduced: `123 / 10` is `ratioV 123 10`); `b = 0` is ZeroDivisionError, reported as
+    `unsupported` (the class is not in `PyErr`); nothing but `/` produces one and no operation consumes one;
+  - `with suppress(E…): S` is `try: S  except (E…): pass` (S one statement).
 -/
 namespace PlumVerif.Py
 
@@ -176,5 +188,49 @@ def int_ (x : V) : PyM V :=
   | .bool b => pure (.int (if b then 1 else 0))
   | .none | .list _ | .tuple _ | .dict .. | .map .. => throw .TypeError
   | _ => throw .unsupported
+
+/-! ### fourth leg: item assignment, `enumerate`, `int(math.pow(2, i))`, true division -/
+
+/-- `d[k] = v` on a dict (value operation, see the header): an existing key keeps its position; a key that is no string
+turns a string-keyed dict into a `map` -/
+def setitem (d k v : V) : PyM V :=
+  match d, k with
+  | .dict ks vs, .str s => let r := dictSet ks vs s v; pure (.dict r.1 r.2)
+  | .dict ks vs, .int i => do let r ← mapSet (ks.map .str) vs (.int i) v; pure (.map r.1 r.2)
+  | .map ks vs, .int i => do let r ← mapSet ks vs (.int i) v; pure (.map r.1 r.2)
+  | .map ks vs, .str s => do let r ← mapSet ks vs (.str s) v; pure (.map r.1 r.2)
+  | .none, _ => throw .TypeError
+  | .int _, _ => throw .TypeError
+  | _, _ => throw .unsupported
+
+def enumFrom : Nat → List V → List V
+  | _, [] => []
+  | i, x :: xs => .tuple [.int i, x] :: enumFrom (i + 1) xs
+
+/-- `enumerate(seq)` of an evaluated sequence: the pairs `(i, item)` -/
+def enumerate (it : V) : PyM V := do pure (.list (enumFrom 0 (← iter it)))
+
+/-- TRUSTED `int(math.pow(a, b))` (see the header): only base 2 -/
+def int_math_pow (a b : V) : PyM V :=
+  match a, b with
+  | .int 2, .int i =>
+    if i < 0 then pure (.int 0)
+    else if i ≤ 1023 then pure (.int ((2 ^ i.toNat : Nat) : Int))
+    else throw .OverflowError
+  | .int _, .int _ => throw .unsupported
+  | .none, _ | _, .none => throw .TypeError
+  | _, _ => throw .unsupported
+
+/-- the exact rational `a / b` (`b > 0`) as a Python float value (see the header) -/
+def ratioV (a : Int) (b : Nat) : V := mkobj "float" [("num", .int a), ("den", .int b), ("*", .none)]
+
+/-- TRUSTED `a / b` on ints (see the header) -/
+def truediv (a b : V) : PyM V :=
+  match a, b with
+  | .int x, .int y =>
+    if y = 0 then throw .unsupported
+    else if y > 0 then pure (ratioV x y.toNat) else pure (ratioV (-x) (-y).toNat)
+  | .none, _ | _, .none => throw .TypeError
+  | _, _ => throw .unsupported
 
 end PlumVerif.Py
